@@ -252,7 +252,10 @@ fn main() {
             let names: Vec<String> = inner.split(',').map(|s| s.trim().to_string()).filter(|s| !s.is_empty()).collect();
             let ra = rb.build_rank(va.0, va.1, va.2, va.3);
             let rbk = rb.build_rank(vb.0, vb.1, vb.2, vb.3);
-            (names, ra, rbk, ra.cmp(&rbk))
+            // the order the result list uses: Ord of MatchedItem, not of the bare arrays
+            let mi = |rank: [i32; 4]| skim::verif::MatchedItem { item: Arc::new(String::new()) as Arc<dyn SkimItem>, rank, matched_range: None, item_idx: 0 };
+            let ord = mi(ra).cmp(&mi(rbk));
+            (names, ra, rbk, ord)
         });
         let input = format!("tiebreak={:?} a={:?} b={:?}", opt, va, vb);
         let (names, ra, rbk, ord) = match res {
